@@ -1,5 +1,7 @@
 #!/usr/bin/env python3
-"""runmut.py <diff> [--tests] <check-id>...  : apply a diff to /repo, optionally run the repo tests, run checks, undo."""
+"""runmut.py <diff> [--tests] <check-id>...  : apply a diff to /repo, optionally run the repo tests, run checks, undo.
+NOTE: this patches /repo itself for the duration of the run. While anything else is using /repo (a vp run, another
+check) use tools/nsrun.sh instead, which works on a clone mounted over /repo in a private mount namespace."""
 import sys, subprocess, os
 diff = sys.argv[1]
 args = sys.argv[2:]
